@@ -348,8 +348,8 @@ fn show(c: &Case) -> serde_json::Value {
 
 fn stages(tier: Tier) -> Vec<Box<dyn Stage>> {
     vec![
-        gen_stage_show("inproc", RULE, tier.pick(2400, 40_000), 400, case_strategy, check_inproc, show),
-        gen_stage_show("cli", RULE, tier.pick(400, 5000), 150, case_strategy, check_cli, show),
+        gen_stage_show("inproc", RULE, tier.pick(8000, 100_000), 400, case_strategy, check_inproc, show),
+        gen_stage_show("cli", RULE, tier.pick(1200, 12_000), 150, case_strategy, check_cli, show),
     ]
 }
 
